@@ -58,7 +58,7 @@ def tla_json(g, gid=None, dflt=()):
         'id': gid, 'nnt': nnt, 'nt': nt, 'root': ntid[g.root], 'rules': rules, 'used': [1] * len(rules),
         'tprec': [g.tprec.get(t, 0) for t in g.ts], 'tassoc': [g.tassoc.get(t, 0) for t in g.ts],
         'tbytes': [ord(t) for t in g.ts], 'tnames': tn, 'ntnames': names_nt, 'ruletext': texts,
-        'lex': 'chars', 'lexterms': [], 'dflt': sorted(dflt), 'obsT': True, 'obsC': True, 'alpha': [ord(t) for t in g.ts],
+        'lex': 'chars', 'lexterms': [], 'dflt': sorted(dflt), 'deflimits': True, 'obsT': True, 'obsC': True, 'alpha': [ord(t) for t in g.ts],
         'uterms': list(range(nt)),
     }
 
@@ -111,4 +111,4 @@ def lex_tla_json(gid, terms):
     return {'id': gid, 'nnt': 1, 'nt': nt, 'root': 0, 'rules': rules, 'used': [1] * len(rules),
             'tprec': [0] * nt, 'tassoc': [0] * nt, 'tbytes': [0] * nt, 'tnames': tn, 'ntnames': ['N0', '##'], 'ruletext': texts,
             'lex': 'ref', 'lexterms': [{'kind': t[0], 'data': ([t[1]] if t[0] == 'C' else list(t[1]))} for t in terms],
-            'dflt': [], 'obsT': True, 'obsC': True, 'alpha': [], 'uterms': list(range(nt))}
+            'dflt': [], 'deflimits': True, 'obsT': True, 'obsC': True, 'alpha': [], 'uterms': list(range(nt))}
